@@ -768,7 +768,12 @@ pub fn gen_builder_trace(master: u64, run: u64) -> BuilderTrace {
                     } else {
                         x -= w_injected;
                         if x < w_generated {
-                            Some(Op::Generated { spec: draw_spec(&mut r, &subset, p_len_max, p_field_max) })
+                            let mut spec = draw_spec(&mut r, &subset, p_len_max, p_field_max);
+                            if r.chance(0.12) {
+                                // a number without an encoder: the generator path fails "naturally"
+                                spec.msg = *r.pick(&[0u16, 1000, 1018, 4095]);
+                            }
+                            Some(Op::Generated { spec })
                         } else {
                             let spec = draw_spec(&mut r, &subset, p_len_max, p_field_max);
                             Some(Op::GeneratedInjected { spec, k: r.range(1, 60) })
@@ -890,6 +895,17 @@ pub fn directed_builder(thorough: bool) -> Vec<BuilderTrace> {
             if j % 4 == 1 {
                 add("two_fields_swapped", toggle_ops(&base, j, true), &mut out);
             }
+        }
+    }
+    // a failing generator call (number without an encoder) between typed builds
+    for (i, s) in shorts.iter().enumerate() {
+        for bad in [0u16, 1000, 4095] {
+            add(
+                "generated_unsupported_between_builds",
+                vec![Op::Build { spec: spec(*s, 1400 + i as u64, 0.0) }, Op::Generated { spec: spec(bad, 1401, 0.0) }, Op::Build { spec: spec(*s, 1402 + i as u64, 0.0) }],
+                &mut out,
+            );
+            add("generated_unsupported_first", vec![Op::Generated { spec: spec(bad, 1403, 0.0) }, Op::Build { spec: spec(*s, 1404 + i as u64, 0.0) }], &mut out);
         }
     }
     // every type once after a maximum-length history and once before
